@@ -434,8 +434,11 @@ func TestVerif_C09(t *testing.T) {
 	var n, trans int64
 	scs := c09Scenarios(BuffSizeAlign, false)
 	scs = append(scs, c09Scenarios(2*BuffSizeAlign, false)[:4]...)
+	// a capacity that is not a power of two (ring arithmetic must not rely on masks)
+	scs = append(scs, c09Scenarios(3*BuffSizeAlign, false)...)
 	if ev.Thorough() {
 		scs = append(scs, c09Scenarios(FileSizeAlign, true)[:3]...)
+		scs = append(scs, c09Scenarios(3*FileSizeAlign, true)[:2]...)
 	}
 	var idx int64
 	for _, sc := range scs {
@@ -608,7 +611,7 @@ func c09Seq(t *testing.T) {
 	for _, cfg := range []struct {
 		capn int
 		file bool
-	}{{BuffSizeAlign, false}, {BuffSizeAlign + 1, false}, {FileSizeAlign, true}} {
+	}{{BuffSizeAlign, false}, {BuffSizeAlign + 1, false}, {3 * BuffSizeAlign, false}, {FileSizeAlign, true}, {3 * FileSizeAlign, true}} {
 		if cfg.file && !ev.Thorough() {
 			continue
 		}
